@@ -166,6 +166,8 @@ inductive Out where
   | entries (ps : List (Pay × Nat))   -- payload, bytes trimmed from its front
   | num (n : Nat)
   | flag (b : Bool)
+  | names (l : List Nat)
+  | trk (s : Option FileTrk)
   deriving Repr, DecidableEq
 
 def wrap16 (n : Nat) : Nat := n % 65536
